@@ -313,32 +313,11 @@ public:
 				return std::is_null_pointer_v<T>;
 			}
 
-			if constexpr (std::is_same_v<T, bool>) {
-				value = attr.as_bool();
-			}
-			else if constexpr (std::is_integral_v<T>)
+			// Use the same conversion and policies as for the text of elements (as_int() and co. silently clamp, wrap and ignore wrong text)
+			if constexpr (!std::is_null_pointer_v<T>)
 			{
-				if constexpr (std::is_same_v<T, int64_t>) {
-					value = attr.as_llong();
-				}
-				else if constexpr (std::is_same_v<T, uint64_t>) {
-					value = attr.as_ullong();
-				}
-				else if constexpr (std::is_unsigned_v<T>) {
-					value = static_cast<T>(attr.as_uint());
-				}
-				else {
-					value = static_cast<T>(attr.as_int());
-				}
-			}
-			else if constexpr (std::is_floating_point_v<T>)
-			{
-				if constexpr (std::is_same_v<T, float>) {
-					value = attr.as_float();
-				}
-				else if constexpr (std::is_same_v<T, double>) {
-					value = attr.as_double();
-				}
+				return BitSerializer::Detail::ConvertByPolicy(attr.value(), value,
+					this->GetOptions().mismatchedTypesPolicy, this->GetOptions().overflowNumberPolicy);
 			}
 			return true;
 		}
